@@ -76,7 +76,13 @@ Inductive ev :=
 | EWake
 | ESse (m : option msg).
 
-Inductive src := FromSse | FromSender.
+(** Who put a message on the read stream: the event-stream task, at the moment
+    it handled the event ([FromSse]); the sender task for something of its own
+    — a POST body, a synthesised error ([FromSender]); or the sender task for
+    an answer it was handed from the event stream through the pending future
+    ([FromHandoff] — the message came from the stream but is delivered when
+    the sender runs). *)
+Inductive src := FromSse | FromSender | FromHandoff.
 Definition out := (src * msg)%type.
 
 Definition kind_eqb (a b : kind) : bool :=
